@@ -25,7 +25,8 @@ ASSUMPTIONS = ['inner child is the raw-mode puppet (no echo, no line discipline 
 REQUIRED = ['sessions', 'stdin_reads_observed', 'child_reads_observed', 'escape_sessions', 'exit_sessions',
             'mode_checks', 'bytes_to_child_compared', 'bytes_to_user_compared']
 
-FILTERS = {'upper': lambda b: b.upper(), 'double': lambda b: b + b, 'drop-x': lambda b: b.replace(b'x', b''), None: lambda b: b}
+FILTERS = {'upper': lambda b: b.upper(), 'double': lambda b: b + b, 'drop-x': lambda b: b.replace(b'x', b''),
+           'grow-a': lambda b: b.replace(b'a', b'aaa'), None: lambda b: b}
 
 
 def gen_case(rng, for_log=False):
@@ -69,7 +70,15 @@ def gen_case(rng, for_log=False):
             d = body[:k] + escb + body[k:2 * k + 1] + escb + body[2 * k + 1:]
         steps.append(['type', d.hex()])
         end = 'escape'
-    filt_in = rng.choice([None, None, 'upper', 'double', 'drop-x'])
+    filt_in = rng.choice([None, None, 'upper', 'double', 'drop-x', 'grow-a'])
+    if end == 'escape' and esc == '\x1d' and rng.random() < 0.4:
+        # a filter that changes the LENGTH of what precedes the escape character in the same read: the cut must
+        # be made where the escape character is in the filtered data
+        filt_in = rng.choice(['drop-x', 'grow-a'])
+        ch = b'x' if filt_in == 'drop-x' else b'a'
+        pre = b''.join(rng.choice([ch, ch, b'b', b'c']) for _ in range(rng.randint(1, 6))) + ch
+        post = bytes(rng.choice(b'bcdefg') for _ in range(rng.randint(0, 4)))
+        steps[-1] = ['type', (pre + escb + post).hex()]
     if esc == 'Q' and rng.random() < 0.5:
         # the input filter runs BEFORE the check for the escape character: a typed 'q' becomes the escape 'Q'
         filt_in = 'upper'
@@ -80,7 +89,7 @@ def gen_case(rng, for_log=False):
             steps = steps[:-1]
         steps.append(['type', (body[:k] + b'q' + body[k:]).hex()])
         end = 'escape'
-    filt_out = rng.choice([None, None, 'upper', 'double', 'drop-x'])
+    filt_out = rng.choice([None, None, 'upper', 'double', 'drop-x', 'grow-a'])
     if rng.random() < 0.25:
         # a burst that the output filter removes completely (the filtered read is empty: not an end of file),
         # followed by more output that must still arrive
